@@ -2,6 +2,7 @@ package props
 
 import (
 	"bytes"
+	"context"
 	"fmt"
 	"net"
 	"sort"
@@ -242,6 +243,30 @@ func feed(e *sim.Env, inv string, n *netNode, target *gen.Node) {
 	if err := n.s.cm.AddBlocks(blocksOf(path)); err != nil {
 		e.Violationf(inv+".valid-accepted", "feed", "%s rejected its own valid branch %s: %v", n.name, target.Describe(), err)
 	}
+}
+
+// redialWhenAlone is the operator's side of a bootstrap: the leaf dials the
+// known full node again whenever it has no peers. (A full node disconnects a
+// peer it shares no sampled history with, which a node fresh from a checkpoint
+// is until it has synced; the syncer's own loop retries an address only every
+// five minutes, and every attempt races with that disconnect.)
+func redialWhenAlone(e *sim.Env, leaf *netNode, addr string) {
+	stop := make(chan struct{})
+	e.OnCleanup(func() { close(stop) })
+	go func() {
+		for {
+			select {
+			case <-stop:
+				return
+			case <-time.After(20 * time.Second):
+			}
+			if !leaf.closed && len(leaf.sy.Peers()) == 0 {
+				ctx, cancel := context.WithTimeout(context.Background(), 5*time.Second)
+				leaf.sy.Connect(ctx, addr)
+				cancel()
+			}
+		}
+	}()
 }
 
 var _ = types.VoidAddress
